@@ -82,10 +82,11 @@ FileLoop:
 						continue FileLoop
 					}
 					renamed = fmt.Sprintf("%s_%d%s", pth, cnt, ext)
-					if cnt > fm.count[name] {
+					if next, taken := fm.index[renamed]; !taken {
 						break
 					} else {
-						idx = fm.index[renamed]
+						// also skips names that were submitted independently
+						idx = next
 						cnt++
 					}
 				}
